@@ -44,11 +44,7 @@ THEOREMS = [
     # definitions regenerated from Box.py on every run = the hand-written model (Proofs/C01_Source.lean)
     'C01.src_state_protocol', 'C01.src_r2c', 'C01.src_c2r', 'C01.src_cacheFill', 'C01.src_obj_c2r', 'C01.src_planes',
     'C01.src_volume', 'C01.src_isLammpsNorm', 'C01.src_lammps_getters', 'C01.src_abc_sq', 'C01.src_set_lengths',
-    'C01.src_set_hi_los', 'C01.src_set_abc', 'C01.src_angles', 'C01.src_below', 'C01.src_inside', 'C01.src_set_dispatch',
-    # re-definition of an existing object, keyword dispatch of Box.set, volume of left-handed cells (Proofs/C01_Dispatch.lean)
-    'C01.redefine_forgets_previous_cell', 'C01.obj_redefine_eq_fresh', 'C01.obj_rejected_unchanged',
-    'C01.origin_only_keeps_vects', 'C01.vects_only_keeps_origin', 'C01.reset_is_unit_cell', 'C01.volume_pos_of_det_ne_zero',
-    'C01.set_dispatch_unit_iff', 'C01.set_dispatch_sound', 'C01.set_dispatch_complete', 'C01.positional_order',
+    'C01.src_set_hi_los', 'C01.src_set_abc', 'C01.src_angles', 'C01.src_below', 'C01.src_inside',
 ]
 PARTIAL = {
     'angles_in_degrees': 'read-back of lengths and angles is proved in squared / cosine form over every ordered field '
@@ -68,13 +64,7 @@ RULE = ('scenarios = op sequences on one Box object: construct via vects | avect
         'lammps getters, volume, r2c; exact inside/outside incl. points on faces/edges/corners for orthogonal cells), '
         'generic doubles (tolerance 1e3*2^-52*cond*scale; points whose model margin to a face is below that bound exempt), '
         'clean-up threshold cases, error cases (non-positive lengths, angles outside (0,180), unrealisable angle triples, '
-        'lammps getters of a non-normal box, wrong trailing dimension, singular cell). Second round: set_* called positionally; '
-        'integer-valued definitions / points as python ints and integer arrays; every subset of the optional angle keywords; one '
-        'angle within a few degrees of 0/180; entries of relative size 1e-12..1e-4 (clean-up threshold); an existing Box re-defined '
-        'through every family x {set, set_*, positional} x {with, without origin}, set(), origin alone, vects alone; definitions '
-        'outside the supported range (refused => object unchanged, accepted => finite state); left-handed cells in the clause '
-        'oracle; arguments unmodified, reads do not write, a second live Box does not interfere; Box.set keyword-name sets '
-        '(documented sets x optional subsets, missing / foreign / unknown keywords, two families at once). distinct = distinct canonical driver '
+        'lammps getters of a non-normal box, wrong trailing dimension, singular cell). distinct = distinct canonical driver '
         'line in its scenario context; non-trivial = cell differs from the unit cell or origin != 0')
 ASSUMPTIONS = [
     'IEEE double rounding of the implementation is bounded by 1e3 * 2^-52 * cond(vects) * scale on the generated inputs; '
@@ -642,78 +632,6 @@ def translate():
     A('')
     A('end formulas')
     A('')
-    # ---- Box.set keyword dispatch, signatures of the set_* methods, __init__, family constructors ----------------
-    sb_ = body('set')
-    if not (len(sb_) == 1 and isinstance(sb_[0], ast.If) and ast.unparse(sb_[0].test) == 'len(kwargs) == 0'):
-        fail('set() is not one if / elif chain starting with `len(kwargs) == 0`')
-    if meths['set'].args.args[1:] or meths['set'].args.vararg or meths['set'].args.kwonlyargs or \
-            meths['set'].args.kwarg is None or meths['set'].args.kwarg.arg != 'kwargs':
-        fail('set() signature is not (self, **kwargs)')
-    unit_ok = [ast.unparse(st) for st in sb_[0].body] == ['self.vects = np.eye(3)', 'self.origin = np.zeros(3)']
-    INLINE = {
-        'vects': ["vects = kwargs.pop('vects')", "origin = kwargs.pop('origin', [0.0, 0.0, 0.0])",
-                  "assert len(kwargs) == 0, 'Invalid arguments'", 'self.vects = vects', 'self.origin = origin'],
-        'origin': ["origin = kwargs.pop('origin')", "assert len(kwargs) == 0, 'Invalid arguments'", 'self.origin = origin'],
-    }
-    chain = []
-    node = sb_[0]
-    else_ok = False
-    while True:
-        if len(node.orelse) == 1 and isinstance(node.orelse[0], ast.If):
-            node = node.orelse[0]
-            m = re.fullmatch(r"'(\w+)' in kwargs", ast.unparse(node.test))
-            if m is None:
-                fail(f'set(): branch test {ast.unparse(node.test)}')
-            key = m.group(1)
-            stm = [ast.unparse(st) for st in node.body]
-            mm = re.fullmatch(r'self\.(set_\w+)\(\*\*kwargs\)', stm[0]) if len(stm) == 1 else None
-            if mm:
-                chain.append((key, mm.group(1)))
-            elif key in INLINE and stm == INLINE[key]:
-                chain.append((key, 'inline:' + key))
-            else:
-                chain.append((key, 'inline:?'))
-        else:
-            else_ok = [ast.unparse(st) for st in node.orelse] == ["raise TypeError('Invalid arguments')"]
-            break
-    A('/-- `Box.set`: the "no keywords" branch is `self.vects = np.eye(3); self.origin = np.zeros(3)`. -/')
-    A(f'def setUnitBranch : Bool := {"true" if unit_ok else "false"}')
-    A('/-- the `elif \'key\' in kwargs` chain of `Box.set`: (key, `set_…` called with `**kwargs` | `inline:vects` | `inline:origin`:')
-    A('    pop the keywords, `assert len(kwargs) == 0`, assign through the property setters, default origin `[0.0, 0.0, 0.0]`). -/')
-    A('def setChainSrc : List (String × String) := [' + ', '.join(f'("{k}", "{a}")' for k, a in chain) + ']')
-    A('/-- the chain ends in `else: raise TypeError`. -/')
-    A(f'def setElseRaisesTypeError : Bool := {"true" if else_ok else "false"}')
-    sigs, dflts = [], []
-    for mname in ('set_vectors', 'set_abc', 'set_lengths', 'set_hi_los'):
-        fa = meths[mname].args if mname in meths else fail(f'{mname} missing')
-        if fa.vararg or fa.kwarg or fa.kwonlyargs or fa.posonlyargs or not fa.args or fa.args[0].arg != 'self':
-            fail(f'{mname}: signature is not plain positional-or-keyword parameters')
-        names = [x.arg for x in fa.args[1:]]
-        nd = len(fa.defaults)
-        ds = [None] * (len(names) - nd) + [ast.unparse(d) for d in fa.defaults]
-        sigs.append((mname, [(n, d is not None) for n, d in zip(names, ds)]))
-        dflts.append((mname, [(n, d) for n, d in zip(names, ds) if d is not None]))
-    A('/-- parameters of the `set_*` methods after `self`, in signature order: (name, has a default). -/')
-    A('def signatures : List (String × List (String × Bool)) := [' + ', '.join(
-        f'("{m}", [' + ', '.join(f'("{n}", {"true" if d else "false"})' for n, d in ps) + '])' for m, ps in sigs) + ']')
-    A('/-- their default values, as written. -/')
-    A('def defaults : List (String × List (String × String)) := [' + ', '.join(
-        f'("{m}", [' + ', '.join(f'("{n}", "{d}")' for n, d in ps) + '])' for m, ps in dflts) + ']')
-    ib_ = [ast.unparse(st) for st in body('__init__')]
-    init_ok = ib_[:3] == ["self.__vects = np.eye(3, dtype='float64')", "self.__origin = np.zeros(3, dtype='float64')",
-                          'self.__reciprocal_vects = None'] and len(ib_) == 4 and ib_[3].startswith('if len(kwargs) > 0:')
-    A('/-- `__init__` gives every instance newly allocated arrays (`np.eye(3, …)`, `np.zeros(3, …)`), an empty cache, and then')
-    A('    hands the keywords to `model` / `set`. -/')
-    A(f'def initFreshState : Bool := {"true" if init_ok else "false"}')
-    fams = []
-    for fname in ('cubic', 'hexagonal', 'tetragonal', 'trigonal', 'orthorhombic', 'monoclinic', 'triclinic'):
-        fb = body(fname)
-        if not fb or not isinstance(fb[-1], ast.Return):
-            fail(f'{fname} does not end in return')
-        fams.append((fname, ', '.join(x.arg for x in meths[fname].args.args[1:]), ast.unparse(fb[-1].value)))
-    A('/-- the crystal-family constructors: (name, parameters, what they return). -/')
-    A('def familyCalls : List (String × String × String) := [' + ', '.join(f'("{n}", "{a}", "{c}")' for n, a, c in fams) + ']')
-    A('')
     A('end Atomman.Generated.BoxSource')
     return {'BoxSource': '\n'.join(out) + '\n'}
 
@@ -908,21 +826,8 @@ def apply_spec(box, spec):
         box.vects = kw['vects']
         box.origin = kw.get('origin', [0.0, 0.0, 0.0])
         return box
-    if via == 'positional':   # the documented parameter order, optional parameters up to the last one given
-        order = POSITIONAL[k]
-        last = max(i for i, nm in enumerate(order) if nm in kw)
-        getattr(box, meth)(*[kw[nm] if nm in kw else POSITIONAL_DEFAULTS[nm] for nm in order[:last + 1]])
-        return box
     getattr(box, meth)(**kw)
     return box
-
-
-# parameter order of the set_* methods as documented (docstrings of Box.set_vectors / set_lengths / set_hi_los / set_abc)
-POSITIONAL = {'vectors': ['avect', 'bvect', 'cvect', 'origin'],
-              'lengths': ['lx', 'ly', 'lz', 'xy', 'xz', 'yz', 'origin'],
-              'hilos': ['xlo', 'xhi', 'ylo', 'yhi', 'zlo', 'zhi', 'xy', 'xz', 'yz'],
-              'abc': ['a', 'b', 'c', 'alpha', 'beta', 'gamma', 'origin']}
-POSITIONAL_DEFAULTS = {'xy': 0.0, 'xz': 0.0, 'yz': 0.0, 'alpha': 90.0, 'beta': 90.0, 'gamma': 90.0, 'origin': None}
 
 
 # ----------------------------------------------------------------------------------------
@@ -937,30 +842,15 @@ def _pos_dy(rng, hi=8.0, bits=3):
     return rng.randint(1, int(hi * q)) / q
 
 
-def gen_spec(rng, regime, allow_left=False, kinds=None, origin=None, ints=None, nonzero_origin=False, tiny=False):
-    """random cell definition. regime: 'grid' | 'float'.  origin: True / False = with / without the optional origin
-    (None: random); ints: integer-valued definition given as python ints (integer arrays with container 'array')."""
+def gen_spec(rng, regime, allow_left=False, kinds=None):
+    """random cell definition. regime: 'grid' | 'float'."""
     kind = rng.choice(kinds or ['vects', 'vectors', 'lengths', 'hilos', 'abc', 'lengths', 'hilos'])
-    via = rng.choice(['ctor', 'set', 'method', 'ctor', 'set', 'method', 'positional'])
+    via = rng.choice(['ctor', 'set', 'method'])
     g = regime == 'grid'
-    ints = g and (rng.random() < 0.15 if ints is None else ints)   # python ints / integer arrays instead of floats
-    if ints:
-        num = lambda lo, hi: rng.randint(int(lo), int(hi))          # noqa: E731
-        pos = lambda hi=8.0: rng.randint(1, int(hi))                # noqa: E731
-    else:
-        num = (lambda lo, hi: _dy(rng, lo, hi)) if g else (lambda lo, hi: rng.uniform(lo, hi))
-        pos = (lambda hi=8.0: _pos_dy(rng, hi)) if g else (lambda hi=8.0: rng.uniform(0.5, hi))
-    origin_req = origin
-    if origin is None:
-        origin = rng.random() < 0.7
-    origin = [num(-8, 8) for _ in range(3)] if origin else None
-    if origin is not None and nonzero_origin:
-        while any(x == 0 for x in origin):
-            origin = [num(-8, 8) for _ in range(3)]
+    num = (lambda lo, hi: _dy(rng, lo, hi)) if g else (lambda lo, hi: rng.uniform(lo, hi))
+    pos = (lambda hi=8.0: _pos_dy(rng, hi)) if g else (lambda hi=8.0: rng.uniform(0.5, hi))
+    origin = [num(-8, 8) for _ in range(3)] if rng.random() < 0.7 else None
     spec = {'kind': kind, 'via': via, 'regime': regime}
-    if ints:
-        spec['ints'] = True
-    zero = 0 if ints else 0.0
     if rng.random() < 0.3:
         spec['container'] = 'array'
     if kind in ('vects', 'vectors'):
@@ -968,7 +858,7 @@ def gen_spec(rng, regime, allow_left=False, kinds=None, origin=None, ints=None, 
             if rng.random() < 0.35:      # rotated / sheared general cell
                 V = [[num(-4, 4) for _ in range(3)] for _ in range(3)]
             else:                         # lower-triangular with a row permutation / sign pattern
-                V = [[pos(), zero, zero], [num(-4, 4), pos(), zero], [num(-4, 4), num(-4, 4), pos()]]
+                V = [[pos(), 0.0, 0.0], [num(-4, 4), pos(), 0.0], [num(-4, 4), num(-4, 4), pos()]]
                 if rng.random() < 0.5:
                     cols = rng.choice([[0, 1, 2], [1, 2, 0], [2, 0, 1]])
                     V = [[r[c] for c in cols] for r in V]
@@ -981,12 +871,6 @@ def gen_spec(rng, regime, allow_left=False, kinds=None, origin=None, ints=None, 
                 np = _np()
                 if np.linalg.cond(np.array(V)) > 200:
                     continue
-                if rng.random() < (0.6 if tiny else 0.1):        # entries around the setter's clean-up threshold (1e-9 of the largest)
-                    big = max(abs(x) for r in V for x in r)
-                    for _ in range(rng.randint(1, 2)):
-                        V[rng.randrange(3)][rng.randrange(3)] = rng.choice([-1, 1]) * big * 10 ** rng.uniform(-12, -4)
-                    if abs(np.linalg.det(np.array(V))) < 1e-3 * big ** 3 or np.linalg.det(np.array(V)) < 0 and not allow_left:
-                        continue
             break
         if kind == 'vects':
             kw = {'vects': V}
@@ -1008,13 +892,9 @@ def gen_spec(rng, regime, allow_left=False, kinds=None, origin=None, ints=None, 
         for t in ('xy', 'xz', 'yz'):
             if rng.random() < 0.75:
                 kw[t] = num(-4, 4)
-    if kind in ('lengths', 'hilos') and not g and rng.random() < (0.6 if tiny else 0.08):     # a tilt around the clean-up threshold
-        big = max(abs(kw.get(k, 0.0)) for k in ('lx', 'ly', 'lz', 'xy', 'xz', 'yz')) if kind == 'lengths' else \
-            max(kw['xhi'] - kw['xlo'], kw['yhi'] - kw['ylo'], kw['zhi'] - kw['zlo'], *(abs(kw.get(k, 0.0)) for k in ('xy', 'xz', 'yz')))
-        kw[rng.choice(['xy', 'xz', 'yz'])] = rng.choice([-1, 1]) * big * 10 ** rng.uniform(-12, -4)
-    if kind == 'abc':
-        kw, fam = gen_abc(rng, g, ints)
-        if fam is not None and rng.random() < 0.5 and origin_req is not True:
+    else:
+        kw, fam = gen_abc(rng, g)
+        if fam is not None and rng.random() < 0.5:
             spec['via'] = 'family'
             spec['family'], spec['fargs'] = fam
             origin = None
@@ -1152,67 +1032,50 @@ def scale_spec(spec, f):
     return out
 
 
-def gen_abc(rng, grid, ints=False):
-    """a, b, c and a realisable angle triple; sometimes one of the crystal families; the optional angle keywords
-    in every combination (an omitted angle is the documented default 90)."""
-    if ints:
-        L = lambda: rng.randint(1, 8)                               # noqa: E731
-    else:
-        L = (lambda: _pos_dy(rng, 8.0)) if grid else (lambda: rng.uniform(1.0, 8.0))
+def gen_abc(rng, grid):
+    """a, b, c and a realisable angle triple; sometimes one of the crystal families."""
+    L = (lambda: _pos_dy(rng, 8.0)) if grid else (lambda: rng.uniform(1.0, 8.0))
     r = rng.random()
     if r < 0.45:
         name = rng.choice(list(FAMILY))
         a, b, c = L(), L(), L()
         while a == b or a == c:
-            b, c = L() + (1 if ints else 0.125), L() + (2 if ints else 0.25)
+            b, c = L() + 0.125, L() + 0.25
         if name == 'cubic':
             args = [a]
         elif name in ('hexagonal', 'tetragonal'):
             args = [a, c]
         elif name == 'trigonal':
-            args = [a, rng.choice([60, 75, 90, 100, 110] if ints else [60.0, 75.5, 90.0, 100.0, 110.0, rng.uniform(30, 118)])]
+            args = [a, rng.choice([60.0, 75.5, 90.0, 100.0, 110.0, rng.uniform(30, 118)])]
         elif name == 'orthorhombic':
             args = [a, b, c]
         elif name == 'monoclinic':
-            args = [a, b, c, rng.choice([100, 120, 135] if ints else [100.0, 120.0, rng.uniform(91, 150)])]
+            args = [a, b, c, rng.choice([100.0, 120.0, rng.uniform(91, 150)])]
         else:
-            al, be, ga = _angles(rng, ints)
+            al, be, ga = _angles(rng)
             while al == be or al == ga:
-                al, be, ga = _angles(rng, ints)
+                al, be, ga = _angles(rng)
             args = [a, b, c, al, be, ga]
-        kw = {k: (v if ints else float(v)) for k, v in FAMILY[name](*args).items()}
+        kw = {k: float(v) for k, v in FAMILY[name](*args).items()}
         return kw, (name, args)
     a, b, c = L(), L(), L()
+    al, be, ga = _angles(rng)
     kw = {'a': a, 'b': b, 'c': c}
-    given = [k for k in ('alpha', 'beta', 'gamma') if rng.random() < (0.8 if rng.random() < 0.6 else 0.4)]
-    while True:
-        al, be, ga = _angles(rng, ints)
-        ang = {'alpha': al, 'beta': be, 'gamma': ga}
-        full = {k: (ang[k] if k in given else 90.0) for k in ang}
-        ca, cb, cg = (math.cos(math.radians(full[k])) for k in ('alpha', 'beta', 'gamma'))
-        extreme = any(not 15 <= full[k] <= 165 for k in full)
-        if 1 - ca * ca - cb * cb - cg * cg + 2 * ca * cb * cg > (1e-4 if extreme else 0.05):
-            break
-    kw.update({k: ang[k] for k in given})
+    # optional angles default to 90
+    if rng.random() < 0.8:
+        kw.update(alpha=al, beta=be, gamma=ga)
+    else:
+        kw.update(gamma=ga) if abs(ga - 90) < 60 else None
     return kw, None
 
 
-def _angles(rng, ints=False):
+def _angles(rng):
     """realisable triple in (0,180), well inside the realisability region."""
     while True:
-        if ints:
-            al, be, ga = (rng.choice([60, 90, 120, 75, 100, 45, 135]) for _ in range(3))
-        else:
-            al, be, ga = (rng.choice([60.0, 90.0, 120.0, 75.0, 100.0, rng.uniform(40, 140), rng.uniform(15, 165)]) for _ in range(3))
-        lim = 0.05
-        if not ints and rng.random() < 0.08:      # one angle close to 0 or 180 degrees (near-degenerate, still realisable)
-            ang = [90.0, 90.0, 90.0]
-            ang[rng.randrange(3)] = rng.choice([1.0, 2.0, 5.0, 10.0, 170.0, 175.0, 178.0, 179.0, rng.uniform(1, 12), rng.uniform(168, 179)])
-            al, be, ga = ang
-            lim = 1e-4
+        al, be, ga = (rng.choice([60.0, 90.0, 120.0, 75.0, 100.0, rng.uniform(40, 140)]) for _ in range(3))
         ca, cb, cg = (math.cos(math.radians(x)) for x in (al, be, ga))
         vol2 = 1 - ca * ca - cb * cb - cg * cg + 2 * ca * cb * cg
-        if vol2 > lim:
+        if vol2 > 0.05:
             return al, be, ga
 
 
@@ -1249,7 +1112,6 @@ def gen_points(rng, V, o, regime, n, orth_exact=False):
 VARIANTS = ['list', 'tuple', 'array2', 'array3', 'array4', 'single-list', 'single-tuple', 'single-array', 'array33',
             'noncontig', 'fortran']
 VARIANTS_ALL = VARIANTS + ['empty', 'empty3']
-INT_VARIANTS = ['int-array', 'int-list', 'int-single', 'int-array3', 'int-tuple']     # integer-valued points only
 
 
 def shape_variant(rng, pts, name=None):
@@ -1282,19 +1144,6 @@ def shape_variant(rng, pts, name=None):
         return name, np.zeros((0, 3)), 0
     if name == 'empty3':
         return name, np.zeros((2, 0, 3)), 0
-    if name.startswith('int-'):          # python ints / integer dtype: the points must be integer-valued
-        ip = [[int(x) for x in p] for p in pts]
-        assert all(float(a) == b for p, q in zip(ip, pts) for a, b in zip(p, q)), 'int variant needs integer-valued points'
-        if name == 'int-array':
-            return name, np.array(ip, dtype=np.int64), n
-        if name == 'int-array3':
-            small = all(abs(x) < 2 ** 31 for q in ip for x in q)
-            return name, np.array(ip, dtype=np.int32 if small else np.int64).reshape(1, n, 3), n
-        if name == 'int-list':
-            return name, ip, n
-        if name == 'int-tuple':
-            return name, tuple(tuple(p) for p in ip), n
-        return name, ip[0], 1
     if name == 'single-list':
         return name, list(pts[0]), 1
     if name == 'single-tuple':
@@ -1414,9 +1263,6 @@ class _Scenario:
                     pts = [[self.rng.uniform(-2, 2) for _ in range(3)] for _ in range(n)]
             else:
                 pts = self._points(n)
-            if self.regime == 'grid' and self.rng.random() < 0.12:      # python ints / integer arrays
-                pts = [[float(self.rng.randint(-3, 3) if op == 'r2c' else self.rng.randint(-8, 12)) for _ in range(3)] for _ in range(n)]
-                variant = self.rng.choice(INT_VARIANTS)
         vname, arg, used = shape_variant(self.rng, pts, variant)
         f = self.box.position_relative_to_cartesian if op == 'r2c' else self.box.position_cartesian_to_relative
         try:
@@ -1447,9 +1293,6 @@ class _Scenario:
         np = _np()
         if pts is None:
             pts = self._points(self.rng.randint(1, 6))
-            if self.regime == 'grid' and self.rng.random() < 0.12:      # python ints / integer arrays
-                pts = [[float(self.rng.randint(-8, 12)) for _ in range(3)] for _ in pts]
-                variant = self.rng.choice(INT_VARIANTS)
         vname, arg, used = shape_variant(self.rng, pts, variant)
         res = {}
         for incl in (True, False):
@@ -1487,7 +1330,7 @@ class _Scenario:
 
 def _short(spec):
     return {k: v for k, v in spec.items() if k in ('kind', 'via', 'kw', 'family', 'fargs', 'container', 'regime', '_ok',
-                                                   'perturbed', 'alias', 'invalid', 'ints')}
+                                                   'perturbed', 'alias')}
 
 
 def _cond(model_vects, model_recip):
@@ -1621,24 +1464,6 @@ def _special_scenarios(ctx, rng):
     sc.read_bad_dim('r2c')
     sc.read_bad_dim('c2r')
     out.append(sc)
-    # --- an existing Box re-defined through every keyword family / method, with and without the optional origin ----
-    for k, regime in enumerate(['grid', 'float']):
-        sc = _Scenario(ctx, rng, regime, 20_100 + k)
-        sc.setter(gen_spec(rng, regime, origin=True, nonzero_origin=True, kinds=['vects', 'lengths']))
-        sc.all_reads()
-        order = list(REDEFINITIONS)
-        rng.shuffle(order)
-        for (kind, via, with_origin) in order:
-            if not with_origin and any(x == 0 for x in sc.box.origin):
-                o = [(_dy(rng, 1, 8) if regime == 'grid' else rng.uniform(1, 8)) * rng.choice([-1, 1]) for _ in range(3)]
-                sc.setter({'kind': 'attr_origin', 'via': 'attr', 'kw': {'origin': o}, 'regime': regime})
-            sc.setter(gen_redefinition(rng, regime, kind, via, with_origin))
-            sc.read_get()
-            if rng.random() < 0.5:
-                sc.read_conv('c2r')
-            else:
-                sc.read_inside(rng.choice(['inside', 'outside']))
-        out.append(sc)
     # --- non LAMMPS-normal, singular -------------------------------------------------------------------------
     sc = _Scenario(ctx, rng, 'grid', 20_001)
     sc.setter({'kind': 'vects', 'via': 'ctor', 'kw': {'vects': [[0.0, 2.0, 0.0], [0.0, 0.0, 2.0], [2.0, 0.0, 0.0]],
@@ -1677,128 +1502,8 @@ def _try_c2r(box, p):
         return _cls(e)
 
 
-# ----------------------------------------------------------------------------------------
-# keyword dispatch of Box.set(**kwargs) / Box(**kwargs): which keyword-name sets are which parameter set
-# ----------------------------------------------------------------------------------------
-KW_FAMILIES = {
-    'vects': (['vects'], ['origin']),
-    'vectors': (['avect', 'bvect', 'cvect'], ['origin']),
-    'lengths': (['lx', 'ly', 'lz'], ['xy', 'xz', 'yz', 'origin']),
-    'hilos': (['xlo', 'xhi', 'ylo', 'yhi', 'zlo', 'zhi'], ['xy', 'xz', 'yz']),
-    'abc': (['a', 'b', 'c'], ['alpha', 'beta', 'gamma', 'origin']),
-    'origin': (['origin'], []),
-}
-
-
-def _kw_values():
-    """a valid value for every keyword; each family describes a *different* cell, so the resulting state tells
-    which branch of `set` was taken."""
-    vals = {
-        'vects': [[2.0, 0.0, 0.0], [0.5, 3.0, 0.0], [0.25, -0.75, 4.0]],
-        'avect': [2.5, 0.0, 0.0], 'bvect': [-0.5, 3.5, 0.0], 'cvect': [0.75, 0.25, 4.5],
-        'lx': 3.0, 'ly': 4.0, 'lz': 5.0, 'xy': -0.5, 'xz': 0.25, 'yz': 1.5,
-        'xlo': -1.0, 'xhi': 2.5, 'ylo': 0.5, 'yhi': 5.0, 'zlo': -2.0, 'zhi': 3.5,
-        'a': 3.25, 'b': 4.5, 'c': 5.75, 'alpha': 80.0, 'beta': 95.0, 'gamma': 105.0,
-        'origin': [0.5, -1.25, 2.0], 'foo': 1.0,
-    }
-    return vals
-
-
-def _kw_expected_state(fam, kw, prior):
-    """state (vects, origin) the documented meaning of parameter set `fam` gives, built through the set_* method /
-    the attribute setters directly (no keyword dispatch involved)."""
-    import atomman as am
-    b = am.Box()
-    b.vects, b.origin = prior
-    if fam == 'unit':
-        b.vects = [[1.0, 0.0, 0.0], [0.0, 1.0, 0.0], [0.0, 0.0, 1.0]]
-        b.origin = [0.0, 0.0, 0.0]
-    elif fam == 'vects':
-        b.vects = kw['vects']
-        b.origin = kw.get('origin', [0.0, 0.0, 0.0])
-    elif fam == 'origin':
-        b.origin = kw['origin']
-    else:
-        names = KW_FAMILIES[fam][0] + KW_FAMILIES[fam][1]
-        getattr(b, {'vectors': 'set_vectors', 'lengths': 'set_lengths', 'hilos': 'set_hi_los', 'abc': 'set_abc'}[fam])(
-            **{k: v for k, v in kw.items() if k in names})
-    return b.vects, b.origin
-
-
-def _kw_cases(rng, n):
-    fams = list(KW_FAMILIES)
-    allnames = sorted({x for r, o in KW_FAMILIES.values() for x in r + o} | {'foo'})
-    out = [[]]
-    for f in fams:                              # every documented set: all subsets of the optional keywords
-        req, opt = KW_FAMILIES[f]
-        for mask in range(1 << len(opt)):
-            out.append(req + [o for i, o in enumerate(opt) if mask >> i & 1])
-    for _ in range(n):
-        r = rng.random()
-        f = rng.choice(fams)
-        req, opt = KW_FAMILIES[f]
-        base = req + [o for o in opt if rng.random() < 0.5]
-        if r < 0.25 and len(req) > 0:           # a mandatory keyword missing
-            base = [k for k in base if k != rng.choice(req)]
-        elif r < 0.5:                           # a keyword of another parameter set (or an unknown one) mixed in
-            base = base + [rng.choice([k for k in allnames if k not in base])]
-        elif r < 0.7:                           # two parameter sets at once
-            g = rng.choice(fams)
-            base = base + [k for k in KW_FAMILIES[g][0] + [o for o in KW_FAMILIES[g][1] if rng.random() < 0.3] if k not in base]
-        else:                                   # any subset of all names
-            base = rng.sample(allnames, rng.randint(1, 5))
-        rng.shuffle(base)
-        out.append(base)
-    return out
-
-
-def _kw_correspond(ctx, rng):
-    import atomman as am
-    np = _np()
-    vals = _kw_values()
-    cases = _kw_cases(rng, ctx.n(150, 3000))
-    lines, impls, infos = [], [], []
-    for names in cases:
-        kw = {k: vals[k] for k in names}
-        how = rng.choice(['ctor', 'set'])
-        prior = ([[1.0, 0.0, 0.0], [0.0, 1.0, 0.0], [0.0, 0.0, 1.0]], [0.0, 0.0, 0.0]) if how == 'ctor' else \
-            ([[6.0, 0.0, 0.0], [1.0, 7.0, 0.0], [-1.5, 0.5, 8.0]], [3.0, -4.0, 5.5])
-        try:
-            if how == 'ctor':
-                box = am.Box(**kw)
-            else:
-                box = am.Box()
-                box.vects, box.origin = prior
-                box.set(**kw)
-            impl = 'ok:?'
-            for fam in ['unit'] + list(KW_FAMILIES):
-                req = KW_FAMILIES[fam][0] if fam != 'unit' else []
-                if fam == 'unit' and names or any(k not in names for k in req):
-                    continue
-                try:
-                    V, o = _kw_expected_state(fam, kw, prior)
-                except Exception:  # noqa
-                    continue
-                if np.array_equal(V, box.vects) and np.array_equal(o, box.origin):
-                    impl = 'ok:' + fam
-                    break
-        except Exception as e:  # noqa
-            impl = _cls(e)
-        line = 'kw ' + ' '.join(names) if names else 'kw'
-        ctx.stats.case('kw', (tuple(sorted(names)), how), nontrivial=bool(names), sample={'keywords': names, 'via': how})
-        lines.append(line)
-        impls.append(impl)
-        infos.append((names, how))
-    outs = ctx.driver.ask_many(lines)
-    for line, impl, out, (names, how) in zip(lines, impls, outs, infos):
-        if impl != out:
-            ctx.disagree('kw:' + (out.split(':')[0]), f'Box{"(**kw)" if how == "ctor" else ".set(**kw)"} with keywords {names}: implementation '
-                         f'{impl}, model {out}', {'op': 'kw', 'keywords': names, 'via': how, 'impl': impl, 'model': out})
-
-
 def correspond(ctx):
     rng = ctx.rng
-    _kw_correspond(ctx, random.Random(ctx.seed * 104729 + 5))
     t = ctx.driver.ask('thr')
     if Fraction(t) != THR:
         ctx.disagree('thr', f'driver threshold {t} is not the double 1e-9', {'op': 'thr'})
@@ -1811,11 +1516,7 @@ def correspond(ctx):
     for sc in scs:
         state = {}
         for (line, kind, impl, info) in sc.items:
-            try:
-                _compare(ctx, sc, line, kind, impl, info, outs[k], state)
-            except Exception as e:  # noqa  (an observation the comparison cannot digest is a disagreement, not a crash)
-                ctx.disagree(f'{kind}:uncomparable', f'{line[:80]}: implementation {impl!r:.200}, model {outs[k][:120]} '
-                             f'({type(e).__name__}: {e})', _replay_of(sc, info, line, impl, outs[k]))
+            _compare(ctx, sc, line, kind, impl, info, outs[k], state)
             k += 1
     ctx.extra['scenarios'] = len(scs)
 
@@ -1843,16 +1544,11 @@ def _compare(ctx, sc, line, kind, impl, info, out, state):
 
     if kind == 'set':
         state.clear()
-        state['set_ok'] = impl == 'ok' and out == 'ok'
-        if impl == 'ok' and out != 'ok' and info['history']:
-            info['history'][-1]['invalid'] = True      # accepted although outside the supported range (for the clause oracle)
         if impl != out:
             bad(f"set:{info['spec']['kind']}", f"{line.split()[0]} via {info['spec'].get('via')}: implementation "
                 f"{impl}, model {out}  [{_short(info['spec'])}]")
         return
     if kind == 'abcres':
-        if not state.get('set_ok'):
-            return          # the definition was refused by one side: reported by the `set` line
         if out.startswith('err:'):
             bad('abcres', f'model refused abc residual: {out}')
             return
@@ -1871,9 +1567,6 @@ def _compare(ctx, sc, line, kind, impl, info, out, state):
     if isinstance(impl, str) or out.startswith('err:'):
         if impl != out:
             bad(f'{kind}:error', f'{line[:80]} [{info.get("variant", "")}]: implementation {impl!r}, model {out}')
-        return
-    if not _all_finite({k: v for k, v in impl.items() if k != 'angles'} if isinstance(impl, dict) else impl):
-        bad(f'{kind}:non-finite', f'{line[:80]} [{info.get("variant", "")}]: implementation reports {impl!r}, model {out[:120]} after {_hist(info)}')
         return
     if kind == 'get':
         toks = out.split()
@@ -1992,16 +1685,6 @@ def _compare(ctx, sc, line, kind, impl, info, out, state):
         return
 
 
-def _all_finite(x):
-    if isinstance(x, dict):
-        return all(_all_finite(v) for v in x.values())
-    if isinstance(x, (list, tuple)):
-        return all(_all_finite(v) for v in x)
-    if isinstance(x, float):
-        return math.isfinite(x)
-    return True
-
-
 def _dyadic(x, bits=6, lim=1024):
     f = Fraction(x)
     return (f * (1 << bits)).denominator == 1 and abs(f) <= lim
@@ -2058,72 +1741,25 @@ def _impl_cond(box):
         return float('inf')
 
 
-def _state_repr(box):
-    """vects / origin of a Box for a message; never raises."""
-    try:
-        return f'vects {_np().asarray(box.vects).tolist()}, origin {_np().asarray(box.origin).tolist()}'
-    except Exception as e:  # noqa
-        return f'(state unreadable: {type(e).__name__}: {e})'
-
-
-def _raw_state(box):
-    """(vects, origin) as float arrays, or None if the getters raise / return something that is not 3x3 and 3."""
-    np = _np()
-    try:
-        V, o = np.array(box.vects, dtype=float), np.array(box.origin, dtype=float)
-    except Exception:  # noqa
-        return None
-    if V.shape != (3, 3) or o.shape != (3,):
-        return None
-    return V, o
-
-
-def _guarded(viol, box, what, f):
-    """run one block of clauses; an exception escaping it is an observation of the implementation (it raised, or it
-    returned something the exact oracle cannot digest — NaN, a wrong type, a wrong shape), reported with the input."""
-    import traceback
-    try:
-        f()
-        return True
-    except Exception as e:  # noqa
-        tb = traceback.extract_tb(e.__traceback__)
-        impl = [fr for fr in tb if '/atomman/' in fr.filename.replace('\\', '/')]
-        mine = [fr for fr in tb if fr.filename.endswith('c01.py')]
-        where = f'{mine[-1].name}:{mine[-1].lineno} `{(mine[-1].line or "")[:90]}`' if mine else ''
-        if impl:
-            viol('oracle:implementation-raised', f'{what}: atomman raised {type(e).__name__}: {e} in {impl[-1].name} '
-                 f'({impl[-1].filename.split("/atomman/")[-1]}:{impl[-1].lineno}) when the oracle evaluated {where}; {_state_repr(box)}')
-        else:
-            viol('oracle:unusable-observation', f'{what}: the implementation returned a value the clause oracle cannot evaluate '
-                 f'({type(e).__name__}: {e}) at {where}; {_state_repr(box)}')
-        return False
-
-
-def oracle_cell(ctx, spec, pts, rels, muts=(), light=False, check_base=True):
+def oracle_cell(ctx, spec, pts, rels, muts=(), light=False):
     """all clauses of C01 for one cell definition and then for the same Box *object* after each of `muts`.
     pts: Cartesian points (floats), rels: relative points.  An element of muts is a concrete setter spec or a
     request {'perturb': …} for a small change, made concrete on the live object (the replay stores the concrete one);
-    a spec may carry 'alias': the arrays handed to the setter / returned by the getters are scribbled on afterwards;
-    'invalid': the definition is outside the supported parameter range (the call may raise: then the object must be
-    unchanged; if it is accepted the resulting state must still be a cell).
-    Every call into atomman is guarded: what the implementation raises is an observation, reported with the input."""
+    a spec may carry 'alias': the arrays handed to the setter / returned by the getters are scribbled on afterwards."""
     import atomman as am
     np = _np()
     done = []
 
     def viol(key, what, **extra):
         ctx.violate(key, what, {'op': 'cell', 'spec': _short(spec), 'points': pts, 'rels': rels,
-                                'mutations': [_short(m) for m in done], 'light': light, 'check_base': check_base, **extra})
+                                'mutations': [_short(m) for m in done], 'light': light, **extra})
 
     try:
-        box, modified = apply_spec_alias(am.Box() if spec.get('via') not in ('ctor', 'family') else None, spec)
+        box = apply_spec_alias(am.Box() if spec.get('via') not in ('ctor', 'family') else None, spec)
     except Exception as e:  # noqa
         viol(f"construct:{spec['kind']}", f"valid cell definition {_short(spec)} raised {type(e).__name__}: {e}")
         return
-    if modified:
-        viol('input:setter-modified-argument', f'{_short(spec)}: the array(s) passed as {modified} were modified by the call')
-    if check_base:
-        _guarded(viol, box, f'after {_short(spec)}', lambda: _oracle_box(ctx, box, spec, pts, rels, viol, light=light))
+    _oracle_box(ctx, box, spec, pts, rels, viol, light=light)
     for m in muts:
         try:
             # make sure every lazily computed quantity exists before the mutation
@@ -2138,97 +1774,50 @@ def oracle_cell(ctx, spec, pts, rels, muts=(), light=False, check_base=True):
             try:
                 m = resolve_perturb(box, m)
             except Exception as e:  # noqa
-                viol('getter:raises', f'reading the parameters of the cell ({_state_repr(box)}) raised {type(e).__name__}: {e}')
+                viol('getter:raises', f'reading the parameters of the cell {box.vects.tolist()} raised {type(e).__name__}: {e}')
                 return
             # points placed relative to the *new* cell would hide nothing, but the old ones may now sit within the
             # rounding bound of a face; the margin test of the oracle handles that
         done.append(m)
-        prev = _raw_state(box)
-        before = None
-        if m.get('invalid'):
-            before = _snapshot(box, np.array(pts, dtype=float), np.array(rels, dtype=float))
         try:
-            box, modified = apply_spec_alias(box, m)
+            box = apply_spec_alias(box, m)
         except Exception as e:  # noqa
-            if m.get('invalid'):
-                # refused: nothing may have been written
-                ctx.stats.case('oracle:rejected', repr(_short(m)))
-                d = _snap_diff(before, _snapshot(box, np.array(pts, dtype=float), np.array(rels, dtype=float)))
-                if d is not None:
-                    viol('state:rejected-setter-changed-object', f'{_short(m)} raised {type(e).__name__} but changed the Box: {d[0]} '
-                         f'was {_fmt(d[1])}, is now {_fmt(d[2])}')
-                    return
-                continue
             viol(f"construct:{m['kind']}", f"valid cell redefinition {_short(m)} raised {type(e).__name__}: {e}")
             return
-        if modified:
-            viol('input:setter-modified-argument', f'{_short(m)}: the array(s) passed as {modified} were modified by the call')
-        if m.get('invalid'):
-            st = _raw_state(box)
-            if st is None or not (np.isfinite(st[0]).all() and np.isfinite(st[1]).all()):
-                viol('construct:non-finite', f'{_short(m)} is accepted and leaves the Box with {_state_repr(box)}')
-                return
-            continue
-        if not _guarded(viol, box, f'after {_short(m)}',
-                        lambda: _oracle_box(ctx, box, m, pts, rels, viol, after_mutation=True, light=light, prev=prev)):
-            return
+        _oracle_box(ctx, box, m, pts, rels, viol, after_mutation=True, light=light)
 
 
 def apply_spec_alias(box, spec):
-    """apply_spec -> (box, names of array arguments the call modified).  With spec['alias'] the setter receives numpy
-    arrays; they must come back unmodified, and are then overwritten (the Box must have copied the values, as
-    `self.__vects[:] = value` does)."""
+    """apply_spec; with spec['alias'] the setter receives numpy arrays which are overwritten *afterwards* (the Box
+    must have copied the values, as `self.__vects[:] = value` does)."""
     np = _np()
     if not spec.get('alias'):
-        return apply_spec(box, spec), []
+        return apply_spec(box, spec)
     sp = dict(spec, kw=dict(spec['kw']))
     sp.pop('container', None)
     held = []
     for key in ('vects', 'avect', 'bvect', 'cvect', 'origin'):
         if key in sp['kw']:
-            arr = np.array(sp['kw'][key])          # dtype as given (int stays int)
+            arr = np.array(sp['kw'][key], dtype=float)
             sp['kw'][key] = arr
-            held.append((key, arr, arr.copy()))
+            held.append(arr)
     out = apply_spec(box, sp)
-    modified = [key for key, arr, orig in held if not np.array_equal(arr, orig)]
-    for key, arr, orig in held:
-        arr[...] = (orig * -3 + 17).astype(arr.dtype)
-    return out, modified
+    for arr in held:
+        arr[...] = arr * -3.0 + 17.0
+    return out
 
 
-def _oracle_box(ctx, box, spec, pts, rels, viol, after_mutation=False, light=False, prev=None):
+def _oracle_box(ctx, box, spec, pts, rels, viol, after_mutation=False, light=False):
     import atomman as am
     np = _np()
-    tag = ' (after a mutation of the same Box object)' if after_mutation else ''
-    st = _raw_state(box)
-    if st is None:
-        viol('getter:raises', f'vects / origin of the Box cannot be read as a 3x3 and a 3-vector after {_short(spec)}: {_state_repr(box)}')
-        return
-    if not (np.isfinite(st[0]).all() and np.isfinite(st[1]).all()):
-        viol('construct:non-finite', f'{_short(spec)} is accepted and leaves the Box with {_state_repr(box)}{tag}')
-        return
     V, o = _fmat(box)
     det = _det3(V)
-    # what a redefinition must leave alone / reset (needs the state before the call)
-    if spec['kind'] == 'reset':
-        if st[0].tolist() != [[1.0, 0.0, 0.0], [0.0, 1.0, 0.0], [0.0, 0.0, 1.0]] or st[1].tolist() != [0.0, 0.0, 0.0]:
-            viol('construct:reset', f'set() without arguments ("square unit box with origin = [0,0,0]") leaves {_state_repr(box)}{tag}')
-            return
-    if prev is not None and spec['kind'] == 'attr_origin' and spec.get('via') != 'ctor' and not np.array_equal(prev[0], st[0]):
-        viol('construct:attr_origin:vects', f'setting only the origin ({spec.get("via")}, {list(spec["kw"]["origin"])}) changed the vectors from '
-             f'{prev[0].tolist()} to {st[0].tolist()}')
-        return
-    if prev is not None and spec['kind'] == 'attr_vects' and not np.array_equal(prev[1], st[1]):
-        viol('construct:attr_vects:origin', f'assigning box.vects changed the origin from {prev[1].tolist()} to {st[1].tolist()}')
-        return
-    if det == 0:
-        return      # property quantifies over non-degenerate cells
-    left = det < 0  # left-handed: outside the quantifier for the rebuild and inside clauses (a rebuilt cell is right-handed,
-    #                 the six half-spaces of a left-handed cell have no common point); every other clause is a statement
-    #                 about "the vectors" and is evaluated as well
+    if det <= 0:
+        return      # property quantifies over right-handed non-degenerate cells
     cond = _impl_cond(box)
     vmax = max(abs(float(x)) for r in V for x in r)
-    ctx.stats.case('oracle:cell' + (':left-handed' if left else ''), (repr(_short(spec)), after_mutation), sample={'spec': _short(spec)})
+    tag = ' (after a mutation of the same Box object)' if after_mutation else ''
+    ctx.stats.case('oracle:cell', (repr(_short(spec)), after_mutation), sample={'spec': _short(spec)})
 
     # -- the defining values come back (construction clause) ------------------------------------------
     kw = spec['kw']
@@ -2304,19 +1893,9 @@ def _oracle_box(ctx, box, spec, pts, rels, viol, after_mutation=False, light=Fal
     for nm, (i, j) in (('alpha', (1, 2)), ('beta', (0, 2)), ('gamma', (0, 1))):
         got = getattr(box, nm)
         want = float(_dot(V[i], V[j])) / (L[i] * L[j])
-        if not abs(math.cos(math.radians(got)) - want) <= 1e-12 or not (0 <= got <= 180):
+        if abs(math.cos(math.radians(got)) - want) > 1e-12 or not (0 <= got <= 180):
             viol(f'getter:{nm}', f'{nm} = {got!r} deg, but the cosine between vects[{i}] and vects[{j}] is {want!r} '
                  f'(cos({nm}) = {math.cos(math.radians(got))!r}) for vects {box.vects.tolist()}{tag}')
-            continue
-        # the angle itself (the cosine is blind near 0 and 180 degrees): atan2(|u x v|, u.v) from the exact products;
-        # arccos of a cosine that carries ~6 roundings is off by at most ~6u / sin(angle)
-        cr = [V[i][1] * V[j][2] - V[i][2] * V[j][1], V[i][2] * V[j][0] - V[i][0] * V[j][2], V[i][0] * V[j][1] - V[i][1] * V[j][0]]
-        sn = math.sqrt(float(_dot(cr, cr)))
-        ang = math.degrees(math.atan2(sn, float(_dot(V[i], V[j]))))
-        tol = math.degrees(32 * U / max(sn / (L[i] * L[j]), 1e-7)) + 64 * U * 180
-        if not abs(got - ang) <= tol:
-            viol(f'getter:{nm}:angle', f'{nm} = {got!r} deg, but the angle between vects[{i}] and vects[{j}] is {ang!r} deg '
-                 f'(difference {got - ang:.3g}, rounding bound {tol:.3g}) for vects {box.vects.tolist()}{tag}')
     if abs(Fraction(float(box.volume)) - abs(det)) > Fraction(1e-12) * abs(det) + Fraction(U * 64 * vmax ** 3):
         viol('getter:volume', f'volume = {float(box.volume)!r} but |det vects| = {float(abs(det))!r} for vects {box.vects.tolist()}{tag}')
     normal = V[0][1] == 0 and V[0][2] == 0 and V[1][2] == 0 and V[0][0] > 0 and V[1][1] > 0 and V[2][2] > 0
@@ -2337,7 +1916,7 @@ def _oracle_box(ctx, box, spec, pts, rels, viol, after_mutation=False, light=Fal
 
     # -- rebuild through every other parameter set -----------------------------------------------------
     if not light:
-        _oracle_rebuild(ctx, box, V, o, det, normal, cond, vmax, viol, tag, left)
+        _oracle_rebuild(ctx, box, V, o, det, normal, cond, vmax, viol, tag)
 
     # -- the object is determined by its vectors and origin, not by its history --------------------------
     _oracle_twin(ctx, box, spec, pts, rels, viol, tag, after_mutation)
@@ -2362,13 +1941,7 @@ def _oracle_box(ctx, box, spec, pts, rels, viol, after_mutation=False, light=Fal
     # -- conversions: mutual inverses, exact value, container independence ------------------------------
     Vinv = _inv3(V)
     for name in (VARIANTS_ALL if not light else ['array2', VARIANTS[len(pts) % len(VARIANTS)]]):
-        _oracle_points(ctx, box, V, o, Vinv, cond, vmax, rmax, pts, rels, name, viol, tag, spec, left)
-    # integer-valued points handed over as python ints / integer arrays (no float dtype anywhere in the argument)
-    ipts = [[float(round(x)) for x in p] for p in pts]
-    irels = [[float(round(x)) for x in p] for p in rels]
-    pick = int(abs(pts[0][0]) * 8 + abs(pts[0][1]) * 64) if pts else 0       # a function of the input only (replayable)
-    for name in ([INT_VARIANTS[pick % 5], INT_VARIANTS[(pick // 5 % 4 + 1 + pick) % 5]] if not light else [INT_VARIANTS[pick % 5]]):
-        _oracle_points(ctx, box, V, o, Vinv, cond, vmax, rmax, ipts, irels, name, viol, tag, spec, left)
+        _oracle_points(ctx, box, V, o, Vinv, cond, vmax, rmax, pts, rels, name, viol, tag, spec)
 
 
 def _snapshot(box, P, S):
@@ -2446,19 +2019,7 @@ def _oracle_twin(ctx, box, spec, pts, rels, viol, tag, after_mutation):
         if not np.array_equal(np.asarray(cache), want):
             viol('state:cache-incoherent', f'the cached reciprocal vectors of the Box are {np.asarray(cache).tolist()} but its '
                  f'vects are {box.vects.tolist()}, whose inverse-transpose is {want.tolist()}{tag}')
-    P0, S0 = P.copy(), S.copy()
     here, there = _snapshot(box, P, S), _snapshot(twin, P, S)
-    if not (np.array_equal(P, P0) and np.array_equal(S, S0)):
-        viol('input:modified', f'reading the Box (conversions / inside / outside) modified the position arrays it was given: '
-             f'{P0.tolist()} -> {P.tolist()}, {S0.tolist()} -> {S.tolist()} ({_state_repr(box)}){tag}')
-        P, S = P0.copy(), S0.copy()
-    # reading is not writing: the same observations a second time
-    d = _snap_diff(here, _snapshot(box, P, S))
-    if d is not None:
-        k, x, y = d
-        viol('state:read-changes-object', f'reading every getter / conversion once changed the Box: {k} was {_fmt(x)}, is {_fmt(y)} on the second '
-             f'reading; now {_state_repr(box)}{tag}')
-        return
     d = _snap_diff(here, there)
     if d is not None:
         k, x, y = d
@@ -2478,25 +2039,6 @@ def _oracle_twin(ctx, box, spec, pts, rels, viol, tag, after_mutation):
                      f'{fresh.vects.tolist()}, {fresh.origin.tolist()}')
         except Exception as e:  # noqa
             viol(f"construct:{spec['kind']}", f'{_short(spec)} on a new Box() raised {type(e).__name__}: {e}')
-    # another Box alive at the same time is another cell: defining, re-defining and reading it leaves this one alone
-    try:
-        other = am.Box()
-        other.set(vects=[[9.5, 0.0, 0.0], [1.25, 7.75, 0.0], [-2.5, 0.75, 6.25]], origin=[11.5, -13.25, 17.75])
-        other.reciprocal_vects
-        other.origin = [-3.5, 2.25, 0.125]
-        other.vects = [[0.0, 3.0, 0.0], [0.0, 0.0, 5.0], [7.0, 0.0, 0.0]]
-        other.position_cartesian_to_relative(P)
-        other.inside(P)
-        other.set(a=3.0, b=4.0, c=5.0, gamma=100.0)
-        other.set()
-    except Exception as e:  # noqa
-        viol('construct:raises', f'defining a second Box raised {type(e).__name__}: {e}')
-    d = _snap_diff(here, _snapshot(box, P, S))
-    if d is not None:
-        k, x, y = d
-        viol('state:objects-share-state', f'creating, re-defining and reading a second, independent Box changed this one: {k} was {_fmt(x)}, '
-             f'is now {_fmt(y)} (this Box was defined by {_short(spec)}{tag})')
-        return
     # overwrite what the getters handed out
     def scribble(obj, only=None):
         names = []
@@ -2534,11 +2076,11 @@ def _oracle_twin(ctx, box, spec, pts, rels, viol, tag, after_mutation):
              f'{_fmt(y)} (vects {twin.vects.tolist()}, origin {twin.origin.tolist()}){tag}')
 
 
-def _oracle_rebuild(ctx, box, V, o, det, normal, cond, vmax, viol, tag, left=False):
+def _oracle_rebuild(ctx, box, V, o, det, normal, cond, vmax, viol, tag):
     import atomman as am
     np = _np()
     G = [[_dot(V[i], V[j]) for j in range(3)] for i in range(3)]
-    targets = ['vects', 'vectors'] + ([] if left else ['abc']) + (['lengths', 'hilos'] if normal else [])
+    targets = ['vects', 'vectors', 'abc'] + (['lengths', 'hilos'] if normal else [])
     for t in targets:
         try:
             if t == 'vects':
@@ -2585,48 +2127,25 @@ def _oracle_rebuild(ctx, box, V, o, det, normal, cond, vmax, viol, tag, left=Fal
                 viol(f'rebuild:{t}:norm', f'cell rebuilt through lengths and angles is not LAMMPS-normal: {b2.vects.tolist()}')
 
 
-def _unchanged(arg, keep):
-    """was an ndarray argument left as it was?"""
-    np = _np()
-    return not isinstance(arg, np.ndarray) or (arg.shape == keep.shape and arg.dtype == keep.dtype and np.array_equal(arg, keep))
-
-
-def _oracle_points(ctx, box, V, o, Vinv, cond, vmax, rmax, pts, rels, vname, viol, tag, spec, left=False):
+def _oracle_points(ctx, box, V, o, Vinv, cond, vmax, rmax, pts, rels, vname, viol, tag, spec):
     np = _np()
     omax = max([abs(float(x)) for x in o] + [0.0])
-
-    def call(what, f, arg):
-        """f(arg) as an array; the caller's array must not be modified by the call.  None if it raised (reported)."""
-        keep = arg.copy() if isinstance(arg, np.ndarray) else None
-        try:
-            out = np.asarray(f(arg))
-        except Exception as e:  # noqa
-            short = {'position_relative_to_cartesian': 'r2c', 'position_cartesian_to_relative': 'c2r', 'outside': 'inside'}.get(what, what)
-            viol(f'{short}:{_container(vname)}-input', f'{what} raised {type(e).__name__}: {e} for {vname} input {_show(arg)} '
-                 f'({_state_repr(box)}){tag}', variant=vname)
-            return None
-        if not _unchanged(arg, keep):
-            viol(f'input:modified:{what}', f'{what}({vname}) modified the array it was given: it was {_show(keep)}, is now {_show(arg)} '
-                 f'({_state_repr(box)}){tag}', variant=vname)
-            arg[...] = keep
-        return out
-
-    def plain(n_used, src):
-        return np.array(src[:n_used], dtype=float).reshape(-1, 3)
-
-    r2c, c2r = box.position_relative_to_cartesian, box.position_cartesian_to_relative
     # relative -> Cartesian -> relative, and values
     _, arg, used = shape_variant(None, rels, vname)
-    cart = call('position_relative_to_cartesian', r2c, arg)
-    ref = call('position_relative_to_cartesian', r2c, plain(used, rels)) if cart is not None else None
-    if cart is not None and ref is not None:
+    ref = None
+    try:
+        cart = np.asarray(box.position_relative_to_cartesian(arg))
+        ref = np.asarray(box.position_relative_to_cartesian(np.array(rels[:used], dtype=float).reshape(-1, 3))).reshape(-1, 3)
+    except Exception as e:  # noqa
+        viol(f'r2c:{_container(vname)}-input', f'position_relative_to_cartesian raised {type(e).__name__}: {e} for {vname} input '
+             f'{_show(arg)}{tag}', variant=vname)
+        cart = None
+    if cart is not None:
         ctx.stats.case('oracle:r2c:' + vname, (repr(rels), vname))
         if cart.shape != np.asarray(arg, dtype=float).shape:
             viol('r2c:shape', f'position_relative_to_cartesian: input shape {np.asarray(arg, dtype=float).shape}, output {cart.shape}',
                  variant=vname)
-        elif cart.dtype.kind != 'f':
-            viol('r2c:dtype', f'position_relative_to_cartesian({vname}) returns dtype {cart.dtype}', variant=vname)
-        elif not np.array_equal(cart.reshape(-1, 3), ref.reshape(-1, 3)):
+        elif not np.array_equal(cart.reshape(-1, 3), ref):
             viol('r2c:container', f'position_relative_to_cartesian gives different values for {vname} input and (n,3) array '
                  f'input: {cart.reshape(-1, 3).tolist()} vs {ref.tolist()}', variant=vname)
         else:
@@ -2638,28 +2157,33 @@ def _oracle_points(ctx, box, V, o, Vinv, cond, vmax, rmax, pts, rels, vname, vio
                     viol('r2c:value', f'position_relative_to_cartesian({s}) = {c}, exact value {[float(w) for w in want]} for vects '
                          f'{box.vects.tolist()}, origin {box.origin.tolist()}{tag}', variant=vname)
                     break
-            back = call('position_cartesian_to_relative', c2r, cart)
-            if back is not None and back.shape == cart.shape:
-                for s, bk in zip(rels[:used], back.reshape(-1, 3).tolist()):
+            try:
+                back = np.asarray(box.position_cartesian_to_relative(cart)).reshape(-1, 3).tolist()
+                for s, bk in zip(rels[:used], back):
                     sm = max(abs(x) for x in s)
                     tol = SAFETY * U * cond * 3 * (3 * sm * vmax + 2 * omax + vmax) * rmax
-                    if any(not abs(bk[j] - s[j]) <= tol for j in range(3)):
+                    if any(abs(bk[j] - s[j]) > tol for j in range(3)):
                         viol('roundtrip:rel-cart-rel' + (':after-mutation' if tag else ''),
                              f'cartesian_to_relative(relative_to_cartesian({s})) = {bk} for vects '
                              f'{box.vects.tolist()}, origin {box.origin.tolist()}{tag}', variant=vname)
                         break
+            except Exception as e:  # noqa
+                viol('c2r:array-input', f'position_cartesian_to_relative raised {type(e).__name__}: {e} for an array{tag}')
     # Cartesian -> relative -> Cartesian, values, inside/outside
     _, arg, used = shape_variant(None, pts, vname)
-    rel = call('position_cartesian_to_relative', c2r, arg)
-    ref = call('position_cartesian_to_relative', c2r, plain(used, pts)) if rel is not None else None
-    if rel is not None and ref is not None:
+    try:
+        rel = np.asarray(box.position_cartesian_to_relative(arg))
+    except Exception as e:  # noqa
+        viol(f'c2r:{_container(vname)}-input', f'position_cartesian_to_relative raised {type(e).__name__}: {e} for {vname} input '
+             f'{_show(arg)} (vects {box.vects.tolist()}){tag}', variant=vname)
+        rel = None
+    if rel is not None:
         ctx.stats.case('oracle:c2r:' + vname, (repr(pts), vname))
+        ref = np.asarray(box.position_cartesian_to_relative(np.array(pts[:used], dtype=float).reshape(-1, 3))).reshape(-1, 3)
         if rel.shape != np.asarray(arg, dtype=float).shape:
             viol('c2r:shape', f'position_cartesian_to_relative: input shape {np.asarray(arg, dtype=float).shape}, output {rel.shape}',
                  variant=vname)
-        elif rel.dtype.kind != 'f':
-            viol('c2r:dtype', f'position_cartesian_to_relative({vname}) returns dtype {rel.dtype}', variant=vname)
-        elif not np.array_equal(rel.reshape(-1, 3), ref.reshape(-1, 3)):
+        elif not np.array_equal(rel.reshape(-1, 3), ref):
             viol('c2r:container', f'position_cartesian_to_relative gives different values for {vname} input and (n,3) array '
                  f'input: {rel.reshape(-1, 3).tolist()} vs {ref.tolist()}', variant=vname)
         else:
@@ -2667,50 +2191,44 @@ def _oracle_points(ctx, box, V, o, Vinv, cond, vmax, rmax, pts, rels, vname, vio
                 want = [sum((_F(p[i]) - o[i]) * Vinv[i][j] for i in range(3)) for j in range(3)]
                 pm = max(abs(x) for x in p) + omax + vmax
                 tol = SAFETY * U * cond * 3 * pm * rmax
-                if any(not abs(s[j] - float(want[j])) <= tol for j in range(3)):
+                if any(abs(s[j] - float(want[j])) > tol for j in range(3)):
                     viol('c2r:value' + (':after-mutation' if tag else ''),
                          f'position_cartesian_to_relative({p}) = {s}, exact value {[float(w) for w in want]} for vects '
                          f'{box.vects.tolist()}, origin {box.origin.tolist()}{tag}', variant=vname)
                     break
-            back = call('position_relative_to_cartesian', r2c, rel)
-            if back is not None and back.shape == rel.shape:
-                for p, bk in zip(pts[:used], back.reshape(-1, 3).tolist()):
+            try:
+                back = np.asarray(box.position_relative_to_cartesian(rel)).reshape(-1, 3).tolist()
+                for p, bk in zip(pts[:used], back):
                     pm = max(abs(x) for x in p) + omax + vmax
                     tol = SAFETY * U * cond * 9 * pm * rmax * vmax
-                    if any(not abs(bk[j] - p[j]) <= tol for j in range(3)):
+                    if any(abs(bk[j] - p[j]) > tol for j in range(3)):
                         viol('roundtrip:cart-rel-cart', f'relative_to_cartesian(cartesian_to_relative({p})) = {bk} for vects '
                              f'{box.vects.tolist()}, origin {box.origin.tolist()}{tag}', variant=vname)
                         break
+            except Exception as e:  # noqa
+                viol('r2c:array-input', f'position_relative_to_cartesian raised {type(e).__name__}: {e} for an array{tag}')
     # inside / outside against exact relative coordinates
     orth = all(V[i][j] == 0 for i in range(3) for j in range(3) if i != j) \
         and all(_dyadic(x, 3, 64) for r in V for x in r) and all(_dyadic(x, 3, 64) for x in o) \
         and all(_dyadic(x) for p in pts for x in p)
-    want_shape = np.asarray(arg, dtype=float).shape[:-1]
     for incl in (True, False):
-        ins = call('inside', lambda a: box.inside(a, inclusive=incl), arg)
-        outs = call('outside', lambda a: box.outside(a, inclusive=not incl), arg)
-        dflt = incl and vname in ('array2', 'list', 'single-list', 'single-array', 'int-array', 'int-single', 'empty')
-        ins_default = call('inside', box.inside, arg) if dflt else ins
-        outs_default = call('outside', box.outside, arg) if dflt else outs
-        if ins is None or outs is None or ins_default is None or outs_default is None:
+        try:
+            ins = np.asarray(box.inside(arg, inclusive=incl))
+            outs = np.asarray(box.outside(arg, inclusive=not incl))
+            ins_default = np.asarray(box.inside(arg)) if incl else None
+        except Exception as e:  # noqa
+            viol(f'inside:{_container(vname)}-input', f'inside/outside raised {type(e).__name__}: {e} for {vname} input{tag}', variant=vname)
             break
+        want_shape = np.asarray(arg, dtype=float).shape[:-1]
         if ins.shape != want_shape or outs.shape != want_shape:
             viol('inside:shape', f'inside/outside: points of leading shape {want_shape} give result shapes {ins.shape}/{outs.shape}',
                  variant=vname)
             break
-        if ins.dtype != bool or outs.dtype != bool:
-            viol('inside:dtype', f'inside / outside of {vname} input {_show(arg)} return {ins.dtype} / {outs.dtype} values '
-                 f'({ins.tolist()!r} / {outs.tolist()!r}), not booleans{tag}', variant=vname)
-            break
         if not np.array_equal(outs, ~ins):
             viol('outside:complement', f'outside(pos, inclusive={not incl}) is not the complement of inside(pos, inclusive={incl}) '
                  f'for {pts[:used]}', variant=vname)
-        if dflt and not np.array_equal(ins_default, ins):
+        if ins_default is not None and not np.array_equal(ins_default, ins):
             viol('inside:default', 'inside(pos) differs from inside(pos, inclusive=True)', variant=vname)
-        if dflt and not np.array_equal(outs_default, outs):
-            viol('outside:default', 'outside(pos) differs from outside(pos, inclusive=False)', variant=vname)
-        if left:
-            continue
         for p, got in zip(pts[:used], ins.reshape(-1).tolist()):
             s = [sum((_F(p[i]) - o[i]) * Vinv[i][j] for i in range(3)) for j in range(3)]
             margin = min(min(abs(x), abs(1 - x)) for x in s)
@@ -2761,133 +2279,38 @@ def _search_disagreements(ctx):
             m.setdefault('regime', 'float')
             if m.get('via') in ('ctor', 'family') and m is not first:
                 m['via'] = 'set'
-        _run_cell(ctx, first, pts, rels, muts)
-
-
-INVALID_DEFS = [
-    {'kind': 'lengths', 'via': 'method', 'kw': {'lx': 0.0, 'ly': 1.0, 'lz': 1.0}},
-    {'kind': 'lengths', 'via': 'set', 'kw': {'lx': 1.0, 'ly': -2.0, 'lz': 1.0, 'xy': 0.5}},
-    {'kind': 'lengths', 'via': 'method', 'kw': {'lx': 1.0, 'ly': 2.0, 'lz': 0.0, 'origin': [1.0, 1.0, 1.0]}},
-    {'kind': 'hilos', 'via': 'method', 'kw': {'xlo': 1.0, 'xhi': 1.0, 'ylo': 0.0, 'yhi': 1.0, 'zlo': 0.0, 'zhi': 1.0}},
-    {'kind': 'hilos', 'via': 'set', 'kw': {'xlo': 0.0, 'xhi': 1.0, 'ylo': 2.0, 'yhi': 1.0, 'zlo': 0.0, 'zhi': 1.0, 'yz': 0.25}},
-    {'kind': 'abc', 'via': 'method', 'kw': {'a': 1.0, 'b': 2.0, 'c': 3.0, 'alpha': 0.0, 'beta': 90.0, 'gamma': 90.0}},
-    {'kind': 'abc', 'via': 'set', 'kw': {'a': 1.0, 'b': 2.0, 'c': 3.0, 'alpha': 90.0, 'beta': 180.0, 'gamma': 90.0}},
-    {'kind': 'abc', 'via': 'method', 'kw': {'a': 1.0, 'b': 2.0, 'c': 3.0, 'alpha': 90.0, 'beta': 90.0, 'gamma': 190.0}},
-    {'kind': 'abc', 'via': 'method', 'kw': {'a': 1.0, 'b': 2.0, 'c': 3.0, 'alpha': 60.0, 'beta': 60.0, 'gamma': 150.0}},
-    {'kind': 'abc', 'via': 'set', 'kw': {'a': 1.0, 'b': 2.0, 'c': 3.0, 'alpha': 20.0, 'beta': 140.0, 'gamma': 100.0, 'origin': [0.5, 0.25, 1.0]}},
-    {'kind': 'abc', 'via': 'method', 'kw': {'a': 2.5, 'b': 1.5, 'c': 3.0, 'alpha': 100.0, 'beta': 120.0, 'gamma': 140.5}},
-]
-
-# every way of re-defining an existing Box: (kind, via, with the optional origin?)
-REDEFINITIONS = [(k, v, o) for k in ('vectors', 'lengths', 'abc') for v in ('set', 'method', 'positional') for o in (True, False)] \
-    + [('vects', 'set', True), ('vects', 'set', False), ('vects', 'method', True), ('vects', 'method', False),
-       ('hilos', 'set', None), ('hilos', 'method', None), ('hilos', 'positional', None), ('reset', 'set', None),
-       ('attr_origin', 'set', True), ('attr_origin', 'attr', True), ('attr_vects', 'attr', None)]
-
-
-def gen_redefinition(rng, regime, kind, via, with_origin):
-    """one re-definition of an existing Box through the given keyword family / method, with or without `origin`."""
-    if kind == 'reset':
-        return {'kind': 'reset', 'via': 'set', 'kw': {}, 'regime': regime}
-    if kind == 'attr_origin':
-        o = [(_dy(rng, -8, 8) if regime == 'grid' else rng.uniform(-8, 8)) for _ in range(3)]
-        return {'kind': 'attr_origin', 'via': via, 'kw': {'origin': o}, 'regime': regime}
-    if kind == 'attr_vects':
-        v = gen_spec(rng, regime, kinds=['vects'], ints=False, tiny=True)['kw']['vects']
-        return {'kind': 'attr_vects', 'via': 'attr', 'kw': {'vects': v}, 'regime': regime, 'container': rng.choice(['list', 'array'])}
-    m = gen_spec(rng, regime, kinds=[kind], origin=bool(with_origin), nonzero_origin=True, tiny=True)
-    if m.get('via') == 'family':
-        m.pop('family', None)
-        m.pop('fargs', None)
-    m['via'] = via
-    return m
-
-
-def _place(rng, spec, regime, n):
-    """points for a cell definition: built once on a throw-away Box (only to place the points)."""
-    import atomman as am
-    tmp = apply_spec(am.Box() if spec.get('via') not in ('ctor', 'family') else None, spec)
-    V, o = _fmat(tmp)
-    if _det3(V) == 0:
-        raise ValueError('singular cell generated')
-    pts = gen_points(rng, V, o, regime, n)
-    rels = [[(_dy(rng, -2, 2) if regime == 'grid' else rng.uniform(-2, 2)) for _ in range(3)] for _ in range(n)]
-    return pts, rels
-
-
-def _run_cell(ctx, spec, pts, rels, muts, light=False, check_base=True):
-    """oracle_cell with a last line of defence: nothing that happens while the clauses are evaluated may abort the
-    search (the guards inside report what the implementation did; this reports what they did not foresee)."""
-    try:
-        oracle_cell(ctx, spec, pts, rels, muts, light=light, check_base=check_base)
-    except Exception as e:  # noqa
-        import traceback
-        tb = traceback.extract_tb(e.__traceback__)
-        where = '; '.join(f'{fr.name}:{fr.lineno}' for fr in tb[-3:])
-        ctx.violate('oracle:exception', f'evaluating the clauses of C01 on {_short(spec)} followed by '
-                    f'{[_short(m) if "perturb" not in m else m for m in muts]} ended in {type(e).__name__}: {e} ({where})',
-                    {'op': 'cell', 'spec': _short(spec), 'points': pts, 'rels': rels,
-                     'mutations': [_short(m) for m in muts if 'perturb' not in m], 'light': light})
-
-
-def _search_redefinitions(ctx, rng, nbase):
-    """An EXISTING Box (non-zero origin, non-unit cell, every lazily computed quantity warm) re-defined through every
-    set_* method / Box.set keyword family / attribute setter, WITH and WITHOUT the optional origin: the result must be
-    the cell just asked for — origin as given or the documented default (0,0,0), vectors as a new Box() given the same
-    definition has them — whatever the object was before; set() is the unit cell at the origin; origin alone leaves
-    the vectors, vects alone leaves the origin.  Then definitions outside the supported range: if refused, nothing
-    may have changed; if accepted, the state must still consist of numbers."""
-    for it in range(nbase):
-        regime = 'grid' if it % 2 == 0 else 'float'
-        base = gen_spec(rng, regime, origin=(it % 5 != 4), nonzero_origin=True,
-                        kinds=[['vects', 'vectors', 'lengths', 'hilos', 'abc'][it % 5]])
-        try:
-            pts, rels = _place(rng, base, regime, 3)
-        except Exception as e:  # noqa
-            ctx.violate(f"construct:{base['kind']}", f'valid cell definition {_short(base)} raised {type(e).__name__}: {e}',
-                        {'op': 'cell', 'spec': _short(base), 'points': [], 'rels': [], 'mutations': []})
-            continue
-        order = list(REDEFINITIONS)
-        rng.shuffle(order)
-        first = True
-        for (kind, via, with_origin) in order:
-            m = gen_redefinition(rng, regime, kind, via, with_origin)
-            if kind != 'reset' and rng.random() < (0.6 if kind in ('vects', 'attr_vects') else 0.25):
-                m['alias'] = True
-            ctx.stats.case('oracle:redefine', (kind, via, with_origin, base['kind'], it))
-            _run_cell(ctx, base, pts, rels, [m], light=True, check_base=first)
-            first = False
-        bad = [dict(b, regime=regime, invalid=True) for b in rng.sample(INVALID_DEFS, 4)]
-        _run_cell(ctx, base, pts, rels, bad, light=True, check_base=False)
+        oracle_cell(ctx, first, pts, rels, muts)
 
 
 def search(ctx, broken):
     if ctx.disagreements:
-        try:
-            _search_disagreements(ctx)
-        except Exception as e:  # noqa
-            ctx.notes.append(f'replaying the correspondence disagreements through the clause oracle failed: {type(e).__name__}: {e}')
+        _search_disagreements(ctx)
     rng = random.Random(ctx.seed * 7919 + 17)
-    _search_redefinitions(ctx, rng, ctx.n(8, 160) * (2 if broken else 1))
     N = ctx.n(60, 1200) * (3 if broken else 1)
     for it in range(N):
         regime = 'grid' if it % 2 == 0 else 'float'
         kinds = ['lengths', 'hilos'] if it % 7 == 0 else None
-        spec = gen_spec(rng, regime, kinds=kinds, allow_left=(it % 9 == 4))
+        spec = gen_spec(rng, regime, kinds=kinds)
         if kinds:
             for t in ('xy', 'xz', 'yz'):
                 spec['kw'].pop(t, None)
+        # points need the cell: build it once in exact arithmetic from a throw-away Box (only to place points)
         try:
-            pts, rels = _place(rng, spec, regime, 6)
+            import atomman as am
+            tmp = apply_spec(am.Box() if spec.get('via') not in ('ctor', 'family') else None, spec)
+            V, o = _fmat(tmp)
         except Exception as e:  # noqa
             ctx.violate(f"construct:{spec['kind']}", f'valid cell definition {_short(spec)} raised {type(e).__name__}: {e}',
                         {'op': 'cell', 'spec': _short(spec), 'points': [], 'rels': [], 'mutations': []})
             continue
+        n = 6
+        pts = gen_points(rng, V, o, regime, n)
+        rels = [[(_dy(rng, -2, 2) if regime == 'grid' else rng.uniform(-2, 2)) for _ in range(3)] for _ in range(n)]
         muts = []
         for _ in range(rng.randint(0, 2)):
             r = rng.random()
             if r < 0.3:
-                v = gen_spec(rng, regime, kinds=['vects'], allow_left=rng.random() < 0.1)['kw']['vects']
+                v = gen_spec(rng, regime, kinds=['vects'])['kw']['vects']
                 muts.append({'kind': 'attr_vects', 'via': 'attr', 'kw': {'vects': v}, 'regime': regime})
             elif r < 0.6:
                 muts.append(gen_perturb(rng))
@@ -2899,43 +2322,26 @@ def search(ctx, broken):
         for m in [spec] + muts:
             if 'perturb' not in m and m.get('via') != 'family' and rng.random() < 0.3:
                 m['alias'] = True
-        _run_cell(ctx, spec, pts, rels, muts)
-    # near-degenerate (still realisable) cells: one angle within a few degrees of 0 or 180
-    for it in range(ctx.n(12, 300) * (2 if broken else 1)):
-        ang = {'alpha': 90.0, 'beta': 90.0, 'gamma': 90.0}
-        k = rng.choice(list(ang))
-        ang[k] = rng.choice([1.0, 2.0, 5.0, 175.0, 178.0, 179.0, rng.uniform(0.5, 12), rng.uniform(168, 179.5)])
-        if rng.random() < 0.5:
-            k2 = rng.choice([x for x in ang if x != k])
-            ang[k2] = rng.uniform(80, 100)
-            ca, cb, cg = (math.cos(math.radians(ang[x])) for x in ('alpha', 'beta', 'gamma'))
-            if 1 - ca * ca - cb * cb - cg * cg + 2 * ca * cb * cg < 2e-4:      # not realisable any more
-                ang[k2] = 90.0
-        spec = {'kind': 'abc', 'via': rng.choice(['ctor', 'set', 'method', 'positional']), 'regime': 'float',
-                'kw': dict(a=rng.uniform(1, 8), b=rng.uniform(1, 8), c=rng.uniform(1, 8), **ang)}
-        try:
-            pts, rels = _place(rng, spec, 'float', 3)
-        except Exception as e:  # noqa
-            ctx.violate('construct:abc', f'valid cell definition {_short(spec)} raised {type(e).__name__}: {e}',
-                        {'op': 'cell', 'spec': _short(spec), 'points': [], 'rels': [], 'mutations': []})
-            continue
-        ctx.stats.case('oracle:near-degenerate', repr(spec['kw']))
-        _run_cell(ctx, spec, pts, rels, [], light=True)
+        oracle_cell(ctx, spec, pts, rels, muts)
     # chains of small changes on one object whose lazily computed quantities are all warm
     for it in range(ctx.n(60, 1500) * (3 if broken else 1)):
         spec = gen_spec(rng, 'float')
         if rng.random() < 0.5:
             spec = scale_spec(spec, 2.0 ** rng.choice([-30, -24, -10, 10, 20, 30]))
         try:
-            pts, rels = _place(rng, spec, 'float', 5)
+            import atomman as am
+            tmp = apply_spec(am.Box() if spec.get('via') not in ('ctor', 'family') else None, spec)
+            V, o = _fmat(tmp)
         except Exception as e:  # noqa
             ctx.violate(f"construct:{spec['kind']}", f'valid cell definition {_short(spec)} raised {type(e).__name__}: {e}',
                         {'op': 'cell', 'spec': _short(spec), 'points': [], 'rels': [], 'mutations': []})
             continue
+        pts = gen_points(rng, V, o, 'float', 5)
+        rels = [[rng.uniform(-2, 2) for _ in range(3)] for _ in range(5)]
         eps0 = 10 ** rng.uniform(-15, -4)
         muts = [gen_perturb(rng, eps=(rng.choice([-1, 1]) * eps0 if rng.random() < 0.6 else None))
                 for _ in range(rng.randint(2, 4))]
-        _run_cell(ctx, spec, pts, rels, muts, light=True)
+        oracle_cell(ctx, spec, pts, rels, muts, light=True)
 
 
 def replay(ctx, payload):
@@ -2945,8 +2351,8 @@ def replay(ctx, payload):
         spec.setdefault('regime', 'float')
         muts = [dict(m, regime=m.get('regime', 'float')) for m in r.get('mutations', [])]
         print('replay cell', spec)
-        _run_cell(ctx, spec, r['points'] or [[0.25, 0.5, 0.75]], r['rels'] or [[0.25, 0.5, 0.75]], muts,
-                  light=bool(r.get('light')), check_base=bool(r.get('check_base', True)))
+        oracle_cell(ctx, spec, r['points'] or [[0.25, 0.5, 0.75]], r['rels'] or [[0.25, 0.5, 0.75]], muts,
+                    light=bool(r.get('light')))
         for v in ctx.violations:
             print('  still fails:', v.what[:300])
         if not ctx.violations:
@@ -2966,17 +2372,13 @@ MANIFEST = {
             'cube for every positive normalisation of the six plane normals, outside = complement, volume = |det| = lx ly lz '
             '= sqrt(det Gram), setter clean-up idempotent; the Box object with its cached reciprocal vectors (filled on first '
             'read, emptied by every call that assigns vects) keeps "cached = inverse-transpose of the current vectors" and '
-            'reports for every call sequence what the cache-free cell reports; every cell-defining call gives the cell (vectors and '
-            'origin, default (0,0,0)) a new Box() given the same definition has, whatever the object was before, a refused call '
-            'changes nothing, origin alone keeps the vectors, set() is the unit cell; Box.set(**kw) accepts exactly the documented '
-            'keyword sets (sound and complete), set_* parameter order as documented. Angle/length read-back is proved in cosine/squared form; the '
+            'reports for every call sequence what the cache-free cell reports. Angle/length read-back is proved in cosine/squared form; the '
             'cos/sqrt/arccos wrappers and float rounding are partial (assumed, compared numerically).',
     'note': 'Trusted: Lean kernel + propext/Classical.choice/Quot.sound; the hand-written model is tied to atomman.Box by a '
             'state-machine correspondence on exact rational inputs (incl. chains of one-ulp..1e-4 changes on warm objects; exact on the dyadic grid, 1e3*2^-52*cond*scale elsewhere, '
             'points within that bound of a face exempt); numpy cos/sqrt/arccos/inv/norm assumed accurate; numpy shape plumbing '
             'exercised by container/shape variants, not modelled.',
-    'technique': 'Lean 4 theorems over a hand-written polymorphic model + translator (class state/write protocol, the '
-                 'one-line formulas, the set() keyword chain, set_* signatures/defaults, __init__ and the family constructors of '
-                 'Box.py regenerated as Lean and proved equal to the model on every run) + differential '
+    'technique': 'Lean 4 theorems over a hand-written polymorphic model + translator (class state/write protocol and the '
+                 'one-line formulas of Box.py regenerated as Lean and proved equal to the model on every run) + differential '
                  'state-machine correspondence + exact-rational clause oracle on the real code',
 }
